@@ -204,7 +204,7 @@ impl Sweep for Layout {
     }
     fn shards(&self) -> usize {
         // shard = first item of the 3-item lists (0..20), then the other families
-        20 + 6 * PARTS
+        20 + 7 * PARTS
     }
     fn run_shard(&self, shard: usize, ctx: &mut Ctx) {
         let empty = Prog::default();
@@ -313,6 +313,38 @@ impl Sweep for Layout {
                             ],
                         };
                         judge_session("with-trace", &p, &[vec![Stmt::Raw("RUN".into())]], &[], ctx);
+                    }
+                }
+            }
+            6 => {
+                // long unterminated lines: the column keeps counting past 80, 255, 256
+                let cols = [13usize, 14, 15, 27, 28, 70, 79, 80, 81, 90, 100, 159, 160, 161, 254, 255, 256, 300, 511, 512];
+                let mut ops: Vec<PItem> = vec![PItem::Comma, PItem::E(call("POS", 0)), PItem::E(call("SPC", 3))];
+                for t in [0i16, 1, 14, 15, 28, 30, 79, 80, 81, 90, 160, 255] {
+                    ops.push(PItem::E(call("TAB", t)));
+                }
+                for (ci, col) in cols.iter().enumerate() {
+                    if !mine(ci) {
+                        continue;
+                    }
+                    for ch in ["x", "é"] {
+                        let mut lead = vec![];
+                        let mut left = *col;
+                        while left > 0 {
+                            let n = left.min(255);
+                            lead.push(PItem::E(Expr::Call("STRING$".into(), vec![int(n as i16), strlit(ch)])));
+                            lead.push(PItem::Semi);
+                            left -= n;
+                        }
+                        for op in &ops {
+                            let mut l = lead.clone();
+                            l.push(op.clone());
+                            l.push(PItem::E(strlit("w")));
+                            l.push(PItem::Semi);
+                            judge_session("long-line", &empty, &[vec![Stmt::Print(l.clone()), probe()]], &[], ctx);
+                            let p = Prog { lines: vec![Line { num: 10, stmts: vec![Stmt::Print(l)] }, Line { num: 20, stmts: vec![probe()] }] };
+                            judge_session("long-line", &p, &[vec![Stmt::Raw("RUN".into())]], &[], ctx);
+                        }
                     }
                 }
             }
